@@ -33,7 +33,8 @@ RULE = (
     "that must match the rational result exactly; CLI slice: real rp2_us runs on spreadsheets with crypto fees on acquisitions "
     "and exchange-supplied fiat columns, Proceeds / Cost Basis / Gain of the Gain / Loss Detail table and of tax_report_us.ods "
     "recomputed from the spreadsheet rows. Non-trivial = a run with >= 1 disposal fraction whose lot and event "
-    "are both only partially used; distinct = hash of (history, method)"
+    "are both only partially used; distinct = hash of (history, method). "
+    "The repository's own example inputs (input/*.ods read independently of RP2's parser, every method and the config's schedule, -n) are part of the workload"
 )
 ASSUMPTIONS = [
     "fiat values default to amount x spot price; exchange-supplied fiat_in_no_fee / fiat_in_with_fee / fiat_fee / fiat_out_no_fee replace them when given",
